@@ -13,7 +13,7 @@ GK = {"bidib_get_point_state": "point", "bidib_get_signal_state": "signal", "bid
       "bidib_get_reverser_state": "rev", "bidib_get_train_state": "trn", "bidib_get_booster_state": "bst", "bidib_get_track_output_state": "to",
       "bidib_get_train_position": "pos", "bidib_get_board_connected": "conn"}
 
-def conc_session(rng, sid, cfgdir, cfg, paths, K, per, policy, debug=False, fill=0):
+def conc_session(rng, sid, cfgdir, cfg, paths, K, per, policy, debug=False, fill=0, writers=False):
     """returns (script, meta): meta = list of (line index, thread, template)"""
     if debug:
         s = drv.Script(sid); meta = []
@@ -56,16 +56,17 @@ def conc_session(rng, sid, cfgdir, cfg, paths, K, per, policy, debug=False, fill
         s.add("thread %d" % t)
         for _ in range(per):
             x = rng.random()
-            if debug or x < 0.3:
+            if writers: x = 0.25 + 0.1 * x if x < 0.2 else (0.8 + 0.2 * x)        # writer sessions: getters 20%, the rest sends / flushes
+            if debug or x < 0.25:
                 # debug (queue) sessions: mostly reads of the (empty) error queue as pacing, so that the message queue stays
                 # around its bound while the receiver delivers (a delivery costs the receiver about four scheduling decisions)
                 k = rng.choice(["msg", "err", "err", "err", "err"]) if debug else rng.choice(["msg", "msg", "err"]); i = len(s.lines); s.add("readmsg" if k == "msg" else "readerr"); meta.append((i, t, {"e": "rd", "k": k}))
-            elif x < 0.8:
+            elif x < 0.65:
                 fn = rng.choice(list(GK)); pool = ids.get(fn) or []
                 a = rng.choice(pool) if pool and rng.random() < 0.9 else "nosuch"
                 if hot and rng.random() < 0.75: fn = rng.choice(list(hot)); a = hot[fn]
                 i = len(s.lines); s.add("get %s %s" % (fn, a)); meta.append((i, t, {"e": "get", "k": GK[fn], "id": a}))
-            elif x < 0.95:
+            elif x < 0.80:
                 fn, sa, iv = g.rand_command(rng, sess)
                 toks = []
                 if fn in ("bidib_set_train_speed", "bidib_set_calibrated_train_speed"): toks = [g._t(sa[0]), str(iv), g._t(sa[1])]
@@ -74,6 +75,14 @@ def conc_session(rng, sid, cfgdir, cfg, paths, K, per, policy, debug=False, fill
                 elif fn == "bidib_set_track_output_state_all": toks = [str(iv)]
                 else: toks = [g._t(x2) for x2 in sa]
                 i = len(s.lines); s.add("hl %s %s" % (fn, " ".join(toks))); meta.append((i, t, {"e": "hl", "fn": fn, "s": ["" if x2 is None else x2 for x2 in sa], "i": iv}))
+            elif x < 0.92:
+                # a low-level send that needs no answer (no effect on the tracked state or the queues: not an event of
+                # Trace_Lin) and a flush: several threads write concurrently, the bytes are checked at the quiesce event
+                from vlib import gen_downlink as gd
+                fn = rng.choice(["bidib_send_bm_mirror_occ", "bidib_send_bm_mirror_free", "bidib_send_lc_port_query_all"])
+                args = [[rng.randrange(256) for _ in range(6)]] if fn.endswith("query_all") else [rng.randrange(256)]
+                line, _ = gd.ll_line(fn, g.na3(rng.choice([[], [1], [2], [1, 1]])), args)
+                s.add(line); s.add("flush")
             else:
                 s.add("flush")
     s.add("endthreads"); s.add("waitidle")
@@ -99,6 +108,21 @@ def events_of(s, meta, sess, rr, debug):
             e["qm"] = [wire.unhex(x) for x in dq[0].get("msg", [])]; e["qe"] = [wire.unhex(x) for x in dq[0].get("err", [])]; e["qi"] = [wire.unhex(x) for x in dq[0].get("int", [])]
             if not debug and gq and gq[0].get("st"): e["st"] = g.keyed(gq[0]["st"]); e["nost"] = 0
             else: e["st"] = 0; e["nost"] = 1
+            # bytes written from the start of the concurrent section up to here, in write-call order
+            w = []; tl = [k for k, ln in enumerate(s.lines) if ln.startswith("threads ")]
+            te = [k for k, ln in enumerate(s.lines) if ln == "endthreads"]
+            free = False
+            if tl and te:
+                for o2 in rr.out.get(tl[0], []):
+                    if o2.get("op") == "threads":
+                        if o2.get("free"): free = True          # free-running threads (TSan stage): no global write order
+                        for x in o2.get("ev", []):
+                            if x[2] == "W": w += wire.unhex(x[3])
+                for k in range(te[0], idx[1] + 1):
+                    for o2 in rr.out.get(k, []):
+                        for ch in o2.get("wire", []): w += wire.unhex(ch)
+            if free: w = []
+            e["w"] = w
             evs.append((10 ** 15, e)); continue
         o = rr.out.get(idx)
         if not o: return None, ["missing output at line %d" % idx]
@@ -128,6 +152,11 @@ def sessions(ctx, pid, thorough, rng, exe, tmp):
         K = rng.choice([2, 3, 4, 8, 16]) if thorough else rng.choice([2, 3, 4, 6])
         pol = rng.choice(["pct %d 3 %d" % (rng.randrange(10 ** 6), 60 * K), "rnd %d" % rng.randrange(10 ** 6), "pct %d 8 %d" % (rng.randrange(10 ** 6), 80 * K)])
         s, meta, sess = conc_session(rng, "st%d" % i, os.path.join(tmp, "st%d" % i), cfg, paths, K, rng.choice([6, 10]), pol)
+        runs.append((s, meta, sess, False))
+    # writer sessions: most calls send and flush, so that flushes / write callbacks of several threads overlap
+    for i in range(0 if pid == "C06" else (40 if thorough else 12)):
+        K = rng.choice([2, 3, 4, 8]); pol = rng.choice(["pct %d 3 %d" % (rng.randrange(10 ** 6), 40 * K), "rnd %d" % rng.randrange(10 ** 6)])
+        s, meta, sess = conc_session(rng, "wr%d" % i, os.path.join(tmp, "wr%d" % i), track_mc.MC_CFG, dict(track_mc.MC_PATHS), K, rng.choice([6, 12]), pol, writers=True)
         runs.append((s, meta, sess, False))
     for i in range(n_queue):
         K = rng.choice([2, 3, 4, 8]); pol = rng.choice(["pct %d 4 %d" % (rng.randrange(10 ** 6), 40 * K), "rnd %d" % rng.randrange(10 ** 6), "rnd %d" % rng.randrange(10 ** 6)])
